@@ -77,3 +77,48 @@ Qed.
 Theorem escape_keeps_closed v : forall s, In (IClosed s) v -> In (IClosed s) (escape c ent v).
 Proof. intros s H. unfold escape. apply in_map_iff. exists (IClosed s). split; [reflexivity|exact H]. Qed.
 End P.
+
+(* ---------- hidden keys: '=' ---------- *)
+Section Hidden.
+Variable c : cp.
+Variable ent : str.
+Hypothesis ent_clean : ~ In c ent.
+
+Lemma exposed_in_str i x : In x (exposed_item i) -> In x (str_item i).
+Proof.
+  induction i as [s|s|pre ch IH] using item_ind'; cbn [exposed_item str_item]; [tauto|intros []|].
+  intros H. apply in_app_or in H. apply in_or_app. destruct H as [H|H]; [now left|right].
+  apply in_flat_map in H. destruct H as ((l & t) & Hin & H). apply in_flat_map. exists (l, t). split; [exact Hin|].
+  cbn [fst snd] in *. apply in_app_or in H. apply in_or_app. destruct H as [H|H]; [left|now right].
+  apply in_flat_map in H. destruct H as (j & Hj & H). apply in_flat_map. exists j. split; [exact Hj|].
+  rewrite Forall_forall in IH. specialize (IH _ Hin). cbn [fst] in IH. rewrite Forall_forall in IH. exact (IH _ Hj H).
+Qed.
+
+Lemma bare_in_str i x : In x (bare_item i) -> In x (str_item i).
+Proof.
+  induction i as [s|s|pre ch IH] using item_ind'; cbn [bare_item str_item]; [tauto|intros []|].
+  intros H. apply in_or_app. right.
+  apply in_flat_map in H. destruct H as ((l & t) & Hin & H). apply in_flat_map. exists (l, t). split; [exact Hin|].
+  cbn [fst snd] in *. apply in_or_app. left.
+  apply in_flat_map in H. destruct H as (j & Hj & H). apply in_flat_map. exists j. split; [exact Hj|].
+  rewrite Forall_forall in IH. specialize (IH _ Hin). cbn [fst] in IH. rewrite Forall_forall in IH. exact (IH _ Hj H).
+Qed.
+
+(* when no heading / external link of the value renders the character, escaping leaves it nowhere outside closed nodes:
+   this is the case in which add() keeps a positional key hidden; otherwise it writes the key out *)
+Theorem escape_hides_everywhere v : open_renders c v = false -> ~ In c (exposed (escape c ent v)).
+Proof.
+  unfold exposed, escape. intros Hno H. apply in_flat_map in H. destruct H as (j & Hj & H).
+  apply in_map_iff in Hj. destruct Hj as (i & <- & Hi).
+  destruct i as [s|s|pre ch].
+  - cbn in H. exact (esc_text_clean c ent ent_clean s H).
+  - cbn in H. exact H.
+  - assert (Hc : ~ In c (str_item (IOpen pre ch))).
+    { intros Hin. unfold open_renders in Hno.
+      assert (existsb (fun i => match i with IOpen _ _ => existsb (N.eqb c) (str_item i) | _ => false end) v = true); [|congruence].
+      apply existsb_exists. exists (IOpen pre ch). split; [exact Hi|]. apply existsb_exists. exists c. split; [exact Hin|apply N.eqb_refl]. }
+    rewrite (esc_item_id c ent (IOpen pre ch)) in H.
+    + exact (Hc (exposed_in_str _ _ H)).
+    + intros Hb. exact (Hc (bare_in_str _ _ Hb)).
+Qed.
+End Hidden.
